@@ -267,7 +267,11 @@ func init() {
 		return func(m *Machine, fr *frame, a []Value) Value {
 			s := a[0].(Iface).v.(Slice)
 			less := a[1]
-			m.insertionSort(fr, s.a, less)
+			if stable {
+				m.insertionSort(fr, s.a, less)
+			} else {
+				m.sortSliceUnstable(fr, s.a, less) // model_sort_pdq.go
+			}
 			return nil
 		}
 	}
